@@ -194,18 +194,86 @@ def _gen_seq(ctx, salt, n):
             yield dict(op="seq", steps=[model_line(st) for st in steps], _t=dict(steps=[st["_t"] for st in steps]))
 
 
+_HIST_SHAPES = ["mixed", "mixed", "affine-mixed", "twin", "normal", "mixed", "zero", "simple", "affine", "mixed"]
+_HIST_TYPES = ["int", "float", "f64", "i64"]
+
+
+def _gen_hist(ctx, salt, n):
+    """HISTORIES: one or two EARLIER operations on objects of a quantity q (any of the ten number forms, x op y
+    with a second barril object of the same dimension in other units or of another quantity, a malformed operand;
+    their own result may be a known finding or an error), then two to four LATER number operations on q - on the
+    very objects used before (`old`) and on freshly created ones, Scalars and Arrays of every container kind.
+    Nothing an earlier operation did may change what a later one returns: the model has no shared state, every step
+    is predicted on its own."""
+    rng = ctx.fresh_rng("C09hist" + salt)
+    for i in range(n):
+        shape_q = _HIST_SHAPES[i % len(_HIST_SHAPES)]
+        q = oc.simple_q(ctx, rng) if shape_q == "simple" else oc.derived_q(ctx, rng, shape_q)
+        if not oc.buildable(oc.scalar_spec(q, 1.0)):
+            continue
+        pool = []
+
+        def x_operand(reuse, shapes=("scalar", "list", "tuple", "nd", "list")):
+            if reuse and pool and rng.random() < 0.4:
+                return dict(rng.choice(pool), old=True)
+            x_ = _x(rng, q, rng.choice(shapes), rng.choice([1, 2, 3]), False, nonzero=True)
+            pool.append(x_)
+            return x_
+
+        def number_step(x_, form=None):
+            f, side = form or rng.choice(FORMS)
+            if x_["t"] == "array" and rng.random() < 0.15:
+                dt = rng.choice(["f64", "f64", "i64"])
+                k_ = oc.nd_spec(dt, oc.rand_values(rng, len(x_["xs"]), nonzero=True, ints=(dt == "i64")))
+            else:
+                k_ = _k(rng, rng.choice(_HIST_TYPES), allow_zero=False)
+            return _case(f, side, x_, k_)
+
+        steps = []
+        for _ in range(rng.choice([1, 1, 2])):
+            kind = rng.choice(["number"] * 3 + ["addsub"] * 3 + ["pair", "pair", "other", "junk"])
+            if kind == "number":
+                steps.append(number_step(x_operand(False)))
+            elif kind == "addsub":
+                # x + k / x - k / k + x / k - x: the database's Sum / Subtract with the empty quantity
+                steps.append(number_step(x_operand(False, ("list", "tuple", "nd", "scalar", "list")),
+                                         rng.choice([("sum", "xk"), ("sub", "xk"), ("sum", "kx"), ("sub", "kx")])))
+            elif kind in ("pair", "other"):
+                x_ = x_operand(False)
+                q2 = oc.other_units(ctx, rng, q) if kind == "pair" else oc.simple_q(ctx, rng)
+                if not oc.buildable(oc.scalar_spec(q2, 1.0)):
+                    q2 = q
+                if x_["t"] == "scalar":
+                    y_ = oc.scalar_spec(q2, oc.rand_value(rng, nonzero=True))
+                else:
+                    y_ = oc.array_spec(q2, rng.choice(oc.KINDS), oc.rand_values(rng, len(x_["xs"]), nonzero=True))
+                f = rng.choice(oc.OPS)
+                steps.append(oc.binop_case(f, x_, y_) if rng.random() < 0.7 else oc.binop_case(f, y_, x_))
+            else:
+                x_ = x_operand(False)
+                w = rng.choice(["none", "list", "npbool"])
+                steps.append(_case(rng.choice(["sum", "sub", "div"]), "xk", x_, dict(t="junk", w=w)))
+        for _ in range(rng.choice([2, 3, 3, 4])):
+            steps.append(number_step(x_operand(True)))
+        yield dict(op="seq", hist=True, steps=[model_line(st) for st in steps], _t=dict(steps=[st["_t"] for st in steps]))
+
+
 def _steps(c):
     return [dict(op="binop", _t=t) for t in c["_t"]["steps"]]
 
 
 def cases(ctx):
+    # the sequences come first: they are the cases in which the order of execution in this process matters least
+    # (every sequence brings its own history)
     if ctx.tier == "quick":
-        yield from _gen(ctx, "q", 30, 25, 600)
+        yield from _gen_hist(ctx, "q", 900)
         yield from _gen_seq(ctx, "q", 600)
+        yield from _gen(ctx, "q", 30, 25, 600)
         yield from _gen_floor(ctx, "q", 600)
     else:
-        yield from _gen(ctx, "t", 200, 120, 5000)
+        yield from _gen_hist(ctx, "t", 9000)
         yield from _gen_seq(ctx, "t", 6000)
+        yield from _gen(ctx, "t", 200, 120, 5000)
         yield from _gen_floor(ctx, "t", 6000)
 
 
@@ -221,8 +289,12 @@ def case_key(c):
 
 def impl(c, ctx):
     if c["op"] == "seq":
-        outs = [oc.run_binop(t["f"], t["a"], t["b"]) for t in c["_t"]["steps"]]
-        oc.count(ctx, "seq/%d steps" % len(outs))
+        objs = {}   # the objects of this sequence: an operand marked `old` is the one built by an earlier step
+        outs = [oc.run_binop(t["f"], t["a"], t["b"], objs) for t in c["_t"]["steps"]]
+        oc.count(ctx, "%s/%d steps" % ("history" if c.get("hist") else "seq", len(outs)))
+        if c.get("hist"):
+            for st, o in zip(_steps(c), outs):
+                oc.count(ctx, "history step: " + oc.branch_key(st, o))
         return dict(outs=outs)
     t = c["_t"]
     io = oc.run_binop(t["f"], t["a"], t["b"])
@@ -245,7 +317,8 @@ def agree(c, io, mo, ctx):
 
 def nontrivial(c, io):
     if c["op"] == "seq":
-        return all("ok" in o and o["ok"]["t"] in ("scalar", "array") for o in io["outs"])
+        good = ["ok" in o and o["ok"]["t"] in ("scalar", "array") for o in io["outs"]]
+        return (sum(good) >= 2 and good[-1]) if c.get("hist") else all(good)
     return "ok" in io and io["ok"]["t"] in ("scalar", "array")
 
 
@@ -260,26 +333,75 @@ def oracle(c, ctx):
     the reciprocal dimension and the value k / v.  ALL quantities are judged, hand-built dicts included (known
     finding CLASS_MIXED).  Demands nothing where the text gives no answer: malformed operands, zero divisors,
     Scalar with an ndarray (no Scalar can hold the elementwise result; the code raises), an ndarray of another
-    length (numpy broadcasting), and the representation of 1/x when x has null factors or two units of one type."""
+    length (numpy broadcasting), and the representation of 1/x when x has null factors or two units of one type
+    (there the magnitude is judged: the value times what the result's unit is worth must be k / (x's value times
+    what x's unit is worth)).
+
+    A SEQUENCE is executed step by step in this process and every step is judged on its own operands, whatever
+    the earlier steps returned (a step whose own failure belongs to the known-finding class, or which raises, is
+    still part of the history of the later ones).
+
+    The verdict is the one of a FRESH interpreter: a failure found here (other than one of the known-finding
+    class) is evaluated again in a new Python process, where nothing ran before the case, so that the input named
+    in the replay is complete - a single operation that only fails because of what this process executed earlier
+    is not a failing input, the sequence that contains the earlier operation is."""
+    f_ = _oracle_here(c, ctx)
+    if not f_ or oc.in_child() or _in_known_class(c, f_):
+        return f_
+    status, g_ = oc.fresh_oracle(ID, c)
+    if status == "ok":
+        if g_ is None:
+            ctx.notes["oracle_failures_only_with_this_process_history"] = ctx.notes.get(
+                "oracle_failures_only_with_this_process_history", 0) + 1
+        return g_
+    return dict(f_, fresh_interpreter_unavailable=str(g_)[:200])
+
+
+def _oracle_here(c, ctx):
+    if c.get("op") == "seq":
+        objs, first_known = {}, None
+        for i, st in enumerate(_steps(c)):
+            f_ = _oracle_binop(st, ctx, objs)
+            if not f_:
+                continue
+            f_ = dict(f_, step=i + 1, sequence=show(c))
+            if _in_known_class(st, f_):
+                first_known = first_known or f_
+                continue
+            return f_
+        # only steps of the known-finding class fail: reported as such (the matcher looks at that step)
+        return dict(first_known, no_other_step_fails=True) if first_known else None
+    if c.get("op") != "binop":
+        return None
+    return _oracle_binop(c, ctx, None)
+
+
+def _oracle_binop(c, ctx, objs):
     import warnings
 
     import numpy as np
     from barril.units import Array, Scalar
 
-    if c.get("op") == "seq":
-        # the steps are executed in order in this process; each one is judged on its own operands
-        for i, st in enumerate(_steps(c)):
-            f_ = oracle(st, ctx)
-            if f_:
-                f_ = dict(f_)
-                f_["step"] = i + 1
-                f_["sequence"] = show(c)
-                return f_
-        return None
-    if c.get("op") != "binop":
-        return None
     t = c["_t"]
     f, a, b = t["f"], t["a"], t["b"]
+    try:
+        A, B = oc.build(a, objs), oc.build(b, objs)
+    except Exception:
+        return None
+    xspec = b if _plain(a) else a
+    xs = None
+    if _plain(a) != _plain(b) and xspec["t"] in ("scalar", "array"):
+        x0 = B if _plain(a) else A
+        xs = [x0.value] if xspec["t"] == "scalar" else list(x0.values)
+    # the operation is executed in every case: inside a sequence it is part of the history of the later steps
+    r, raised = None, None
+    try:
+        with warnings.catch_warnings():
+            warnings.simplefilter("ignore")
+            with np.errstate(all="ignore"):
+                r = oc.PYOP[f](A, B)
+    except Exception as e:
+        raised = e
     if _plain(a) == _plain(b):
         return None
     kspec, xspec, k_left = (a, b, True) if _plain(a) else (b, a, False)
@@ -287,11 +409,7 @@ def oracle(c, ctx):
         return None
     if xspec["t"] == "scalar" and kspec["t"] == "nd":
         return None
-    try:
-        x, k = oc.build(xspec), oc.build(kspec)
-    except Exception:
-        return None
-    xs = [x.value] if xspec["t"] == "scalar" else list(x.values)
+    x, k = (B, A) if k_left else (A, B)
     ks = [oc.val(v) for v in kspec["xs"]] if kspec["t"] == "nd" else None
     kmask = list(kspec.get("mask") or []) if kspec["t"] == "nd" else []   # masked positions carry no value
     if ks is not None and len(ks) != len(xs):
@@ -300,13 +418,8 @@ def oracle(c, ctx):
     pairs = [((kk if k_left else v), (v if k_left else kk)) for v, kk in zip(xs, ks if ks is not None else [k] * len(xs))]
     if f in ("div", "floordiv") and any(float(d) == 0.0 for _n, d in pairs):
         return None
-    try:
-        with warnings.catch_warnings():
-            warnings.simplefilter("ignore")
-            with np.errstate(all="ignore"):
-                r = oc.PYOP[f](k, x) if k_left else oc.PYOP[f](x, k)
-    except Exception as e:
-        return dict(clause="a plain number operand must give a barril object", form=form, raised=repr(e))
+    if raised is not None:
+        return dict(clause="a plain number operand must give a barril object", form=form, raised=repr(raised))
     if not isinstance(r, (Scalar, Array)) or not hasattr(r, "GetQuantity"):
         return dict(clause="the result is a barril object carrying a unit", form=form, got=type(r).__name__,
                     value=repr(r)[:200])
@@ -323,17 +436,69 @@ def oracle(c, ctx):
             kw["class"] = cls
         return kw
 
+    rvals = r.value if isinstance(r, Scalar) else r.values
+    rmask = [bool(m) for m in np.ma.getmaskarray(rvals)] if isinstance(rvals, np.ma.MaskedArray) else []
+    got = [rvals] if isinstance(r, Scalar) else list(np.ma.getdata(rvals) if rmask else rvals)
+
+    def magnitude(clause):
+        """where the text fixes no representation (1/x of a quantity with null factors or two units of one type;
+        x*k, x/k of an Array of the known-finding class, whose result is written in matched units): the value
+        times what ONE unit of the result is worth must be the operation on x's value times what one unit of x is
+        worth (slopes from the unit table, not from the library's arithmetic)"""
+        fx, fr = oc.unit_factor(ctx.db, q), oc.unit_factor(ctx.db, rq)
+        if fx is None or fr is None or len(got) != len(xs):
+            return None
+        for i, (n_, d_) in enumerate(pairs):
+            if (i < len(kmask) and kmask[i]) or (i < len(rmask) and rmask[i]):
+                continue
+            g = float(got[i])
+            n_x, d_x = Fraction(float(n_)), Fraction(float(d_))
+            # x's value in base units, the result converted back into the unit the result carries
+            if recip:
+                w = n_x / (d_x * fx) / fr
+            elif f == "mul":
+                w = n_x * d_x * fx / fr
+            else:
+                w = n_x / d_x * fx / fr
+            if not oc.in_range(w) or w == 0:
+                continue
+            f32 = _prec(kspec, got[i], np)
+            if f32 == "f16":
+                continue
+            if not math.isfinite(g):
+                if abs(w) < (Fraction(10) ** 30 if f32 else Fraction(10) ** 250):
+                    return dict(clause=clause, form=form, index=i, got=g, want=float(w), result_quantity=rq, x=q)
+                continue
+            rel = 1e-5 if f32 else 1e-9
+            if f == "floordiv":
+                wf = Fraction(math.floor(w))
+                if abs(Fraction(g) - wf) <= Fraction(rel) * max(abs(wf), 1):
+                    continue
+                if abs(Fraction(g) - wf) <= 1 + Fraction(rel) * max(abs(wf), 1) and _near_int(float(w), f32):
+                    continue
+                return dict(clause=clause, form=form, index=i, got=g, want=float(wf), result_quantity=rq, x=q)
+            if abs(Fraction(g) - w) > Fraction(rel) * abs(w):
+                return dict(clause=clause, form=form, index=i, got=g, want=float(w), result_quantity=rq, x=q)
+        return None
+
     dim_x, dim_r = oc.dimension(ctx.db, q), oc.dimension(ctx.db, rq)
     if recip:
         # "k/x and k//x have the reciprocal dimension and the value k divided by x's value"
         if dim_r != {qt: -e for qt, e in dim_x.items()}:
             return fail(clause="k/x has the reciprocal dimension", form=form, got=rq, x=q)
         if not normal:
-            return None  # null factors / two units of one type: the text fixes no representation of 1/x
+            # null factors / two units of one type: the text fixes no representation of 1/x, the magnitude it does
+            return magnitude("k/x has the value k divided by x's value (in the unit the result carries)")
         want = [[cc, u, -int(e)] for cc, u, e in q]
         if rq != want:
             return fail(clause="k/x has the reciprocal quantity", form=form, got=rq, want=want)
     else:
+        if cls and f in ("mul", "div") and dim_r == dim_x:
+            # the known finding is about the REPRESENTATION (the result is written in matched units); a result
+            # whose magnitude is not the one of x*k / x/k is something else
+            m_ = magnitude("the result has the magnitude of the operation on x (in the unit the result carries)")
+            if m_:
+                return m_
         # the eight forms keep x's quantity: for every quantity, simple or derived
         want = [[cc, u, int(e)] for cc, u, e in q]
         if normal and (rq != want or r.GetQuantity() != x.GetQuantity()):
@@ -342,9 +507,6 @@ def oracle(c, ctx):
             # (items with exponent 0 and cancelling items are null factors: unit and dimension decide)
             return fail(clause="the result keeps x's quantity", form=form, got=rq, want=want,
                         got_unit=r.GetUnit(), want_unit=x.GetUnit())
-    rvals = r.value if isinstance(r, Scalar) else r.values
-    rmask = [bool(m) for m in np.ma.getmaskarray(rvals)] if isinstance(rvals, np.ma.MaskedArray) else []
-    got = [rvals] if isinstance(r, Scalar) else list(np.ma.getdata(rvals) if rmask else rvals)
     if len(got) != len(xs):
         return fail(clause="one result value per value of x", form=form, got=len(got), want=len(xs))
     for i, (n_, d_) in enumerate(pairs):
@@ -364,6 +526,8 @@ def oracle(c, ctx):
                 return fail(clause="the operation is applied to the value(s)", form=form, index=i, got=g, want=want_v)
             continue
         f32 = _prec(kspec, got[i], np)
+        if f32 == "f16" and 0 < min(abs(float(n_)), abs(float(d_))) < 1e-4:
+            continue  # below float16's normal range (a weak Python float operand is first cast to float16)
         if f == "floordiv" and not f32 and not cls and oc.exact_floor_case(t):
             # no rounded intermediate: Python's (and numpy's) float `//` is the floor of the EXACT quotient of the
             # two numbers as given
@@ -386,14 +550,20 @@ _EIGHT = {("mul", "kx"), ("mul", "xk"), ("div", "xk"), ("floordiv", "xk"), ("sum
           ("sub", "xk"), ("sub", "kx")}
 
 
-def matches_known(entry, case, failure):
-    """Only the recorded input class is excused: an ARRAY (never a Scalar) whose quantity holds two different
-    units of one quantity type, a plain number / ndarray on the other side, one of the eight quantity-keeping
-    forms, failing 'keeps x's quantity' or 'applied to the value(s)'.  Everything else stays a violation."""
+def _in_known_class(case, failure):
+    """the input class of the known finding, and nothing else: an ARRAY (never a Scalar) whose quantity holds two
+    different units of one quantity type, a plain number / ndarray on the other side, one of the eight
+    quantity-keeping forms, failing 'keeps x's quantity' or 'applied to the value(s)'.  For a sequence: the
+    failing step is such an operation AND no other step of the sequence fails."""
     from barril.units.unit_database import UnitDatabase
 
-    if (entry.get("matcher") or {}).get("class") != CLASS_MIXED or not failure or failure.get("class") != CLASS_MIXED:
+    if not failure or failure.get("class") != CLASS_MIXED:
         return False
+    if case.get("op") == "seq":
+        steps, i = _steps(case), failure.get("step")
+        if not failure.get("no_other_step_fails") or not isinstance(i, int) or not 1 <= i <= len(steps):
+            return False
+        case = steps[i - 1]
     if case.get("op") != "binop":
         return False
     t = case["_t"]
@@ -406,6 +576,13 @@ def matches_known(entry, case, failure):
     if failure.get("clause") not in ("the result keeps x's quantity", "the operation is applied to the value(s)"):
         return False
     return oc.mixed_units(UnitDatabase.GetSingleton(), x["q"])
+
+
+def matches_known(entry, case, failure):
+    """Only the recorded input class is excused (see `_in_known_class`).  Everything else stays a violation."""
+    if (entry.get("matcher") or {}).get("class") != CLASS_MIXED:
+        return False
+    return _in_known_class(case, failure)
 
 
 def replay_finding(entry, ctx):
@@ -431,7 +608,30 @@ def _prec(kspec, v, np):
     return bool(oc.uses_f32(kspec)) or isinstance(v, np.float32)
 
 
+def _subseq(c, idx):
+    return dict(op="seq", hist=True, steps=[c["steps"][i] for i in idx], _t=dict(steps=[c["_t"]["steps"][i] for i in idx]))
+
+
+def shrink(case, failure, ctx):
+    """a failing sequence is cut down to the failing step plus the one earlier step it needs (each candidate is
+    judged by the oracle, i.e. in a fresh interpreter)"""
+    if case.get("op") != "seq" or not isinstance(failure.get("step"), int) or _in_known_class(case, failure):
+        return case, failure
+    i = failure["step"] - 1
+    if i < 1 or i >= len(case["steps"]):
+        return case, failure
+    for idx in [[j, i] for j in range(i)] + ([list(range(i + 1))] if i + 1 < len(case["steps"]) else []):
+        if len(idx) >= len(case["steps"]):
+            continue
+        c2 = _subseq(case, idx)
+        f2 = oracle(c2, ctx)
+        if f2 and not _in_known_class(c2, f2) and f2.get("step") == len(idx):
+            return c2, f2
+    return case, failure
+
+
 def search(ctx):
+    yield from _gen_hist(ctx, "search", 600)
     yield from _gen_floor(ctx, "search", 300)
     yield from _gen_seq(ctx, "search", 400)
     yield from _gen(ctx, "search", 12, 8, 0)
